@@ -132,6 +132,9 @@ pub struct DriveOut {
     /// Bytes left in the read buffer when the stream ended.
     pub leftover: usize,
     pub panic: Option<String>,
+    /// Index of the first event that was produced after the reader had reported the end of the stream (the decoder was
+    /// then being asked through `decode_eof`).
+    pub first_event_at_eof: Option<usize>,
 }
 
 pub struct DriveIn {
@@ -178,11 +181,17 @@ where
                     // The pipe always wakes immediately.
                 }
                 Poll::Ready(Some(Ok(item))) => {
+                    if framed.get_ref().eof_reads > 0 && out.first_event_at_eof.is_none() {
+                        out.first_event_at_eof = Some(out.events.len());
+                    }
                     just_errored = false;
                     let consumed = framed.get_ref().delivered() - framed.read_buffer().len();
                     out.events.push(Ev::Item(canon(item), consumed));
                 }
                 Poll::Ready(Some(Err(e))) => {
+                    if framed.get_ref().eof_reads > 0 && out.first_event_at_eof.is_none() {
+                        out.first_event_at_eof = Some(out.events.len());
+                    }
                     just_errored = true;
                     let consumed = framed.get_ref().delivered() - framed.read_buffer().len();
                     out.events.push(Ev::Err(format!("{:?}", e), consumed));
